@@ -274,11 +274,12 @@ class G:
         self.leaves_of[r] = self.leaves_of.get(lhs, frozenset()) | self.leaves_of.get(rhs, frozenset())
         return r
 
-    def joinp(self, lhs: str, rhs: str, pred=None, opts=None) -> str:
-        """A join with every `apply` option (explicit preferred engine, require_preferred_engine)."""
+    def joinp(self, lhs: str, rhs: str, pred=None, opts=None, fixed_lhs: bool = False) -> str:
+        """A join with every `apply` option (explicit preferred engine, require_preferred_engine); with
+        `fixed_lhs` the fixed relation `rhs` becomes the LEFT operand (`partial(fixed, is_lhs=True)`)."""
         r = self.fresh()
         opts = opts or self.opts()
-        self.emit(["joinp", r, lhs, rhs, pred or ["plit", "T"], opts])
+        self.emit(["joinpl" if fixed_lhs else "joinp", r, lhs, rhs, pred or ["plit", "T"], opts])
         self.cols[r] = self.cols[lhs] | self.cols[rhs]
         self.eng[r] = self.eng[rhs] if opts[1] == "-" else opts[1]
         if lhs in self.has_chain or rhs in self.has_chain:
@@ -311,6 +312,17 @@ class G:
     def transfer(self, target: str, engine: str) -> str:
         r = self.fresh()
         self.emit(["transfer", r, target, engine])
+        self.cols[r] = self.cols[target]
+        self.eng[r] = engine
+        if target in self.has_chain:
+            self.has_chain.add(r)
+        self.leaves_of[r] = self.leaves_of.get(target, frozenset())
+        return r
+
+    def transferp(self, target: str, engine: str) -> str:
+        """`engine.transfer(target, payload=<rows>)` (an iteration engine): refused when the target already lives there."""
+        r = self.fresh()
+        self.emit(["transferp", r, target, engine])
         self.cols[r] = self.cols[target]
         self.eng[r] = engine
         if target in self.has_chain:
@@ -722,26 +734,41 @@ def prog_sql(seed: int, n_ops: int = 8, *, sorts: float = 1.0, selfjoin: float =
         p1 = g.apply(l1, ["proj", *sorted(g.cols[l1] - {hide1})], g.cols[l1] - {hide1})
         p2 = g.apply(l2, ["proj", *sorted(g.cols[l2] - {hide2})], g.cols[l2] - {hide2})
         observed.append(g.join(p1, p2, None) if rng.random() < 0.5 else g.join(p2, p1, None))
-    if rng.random() < 0.15:
-        # scenario: a UNION that is sorted (and usually sliced), then a projection that drops a column
-        # the sort needs (the engine must nest the UNION; the slice must be applied exactly once)
+    if rng.random() < 0.3:
+        # scenario: a UNION carrying recorded operations (any of sort / slice / deduplication, a slice only after a
+        # sort), then one more operation: a projection that drops a column (the sort key, or one that made rows
+        # distinct), a selection, a calculation, another deduplication / sort / slice.  The engine must nest the UNION
+        # whenever the recorded operations have to act BEFORE the new one; a slice must be applied exactly once
         cs = sorted(rng.sample(BASE_COLS, rng.choice([2, 3])))
         u1 = g.leaf("e0", cols=cs, nrows=rng.choice([2, 3, 4]))
         u2 = g.leaf("e0", cols=cs, nrows=rng.choice([1, 2, 3]))
-        ch = g.chain(u1, u2)
+        cur = g.chain(u1, u2)
         key = rng.choice(cs)
-        terms = [["term", ["ref", key], rng.choice(["asc", "desc"])]]
-        if rng.random() < 0.4:
-            terms.append(["term", ["ref", rng.choice(cs)], "asc"])
-        cur = g.apply(ch, ["sort", *terms], g.cols[ch])
-        if rng.random() < 0.8:
-            a = rng.choice([0, 0, 1, 2])
-            cur = g.apply(cur, ["slice", a, rng.choice([a + 1, a + 2, a + 3, "-"]), "-"], g.cols[cur])
-        if rng.random() < 0.25:
-            cur = g.apply(cur, ["dedup"], g.cols[cur])
-        keep = [c for c in cs if c != key]
+        shape = rng.choice(["sort-slice", "sort-slice", "dedup", "dedup", "sort", "sort-dedup", "dedup-sort-slice", "sort-slice-dedup"])
+        for what in shape.split("-"):
+            if what == "sort":
+                terms = [["term", ["ref", key], rng.choice(["asc", "desc"])]]
+                if rng.random() < 0.4:
+                    terms.append(["term", ["ref", rng.choice(cs)], "asc"])
+                cur = g.apply(cur, ["sort", *terms], g.cols[cur])
+            elif what == "slice":
+                if rng.random() < 0.85:
+                    a = rng.choice([0, 0, 1, 2])
+                    cur = g.apply(cur, ["slice", a, rng.choice([a + 1, a + 2, a + 3, "-"]), "-"], g.cols[cur])
+            else:
+                cur = g.apply(cur, ["dedup"], g.cols[cur])
         observed.append(cur)
-        observed.append(g.apply(cur, ["proj", *keep], frozenset(keep)))
+        last = rng.choice(["proj-key", "proj-key", "proj-any", "proj-any", "other"])
+        if last == "proj-key":
+            keep = [c for c in cs if c != key]
+            observed.append(g.apply(cur, ["proj", *keep], frozenset(keep)))
+        elif last == "proj-any":
+            drop = rng.choice(cs)
+            keep = [c for c in cs if c != drop]
+            observed.append(g.apply(cur, ["proj", *keep], frozenset(keep)))
+        else:
+            op, nc = g.rand_op(g.cols[cur], allow=("calc", "dedup", "sel", "sort") if "slice" not in shape else ("calc", "dedup", "sel"))
+            observed.append(g.apply(cur, op, nc))
     if rng.random() < 0.12:
         # scenario: a zero-column "guard" relation (project onto nothing, deduplicate) joined to a table
         base = g.leaf("e0", nrows=rng.choice([0, 0, 1, 2]), bounds=rng.choice(["loose", "unbounded", "zero-min"]))
@@ -958,6 +985,22 @@ def prog_multi(seed: int, n_ops: int = 8, *, three: float = 0.3, prefs: float = 
         plain = g.apply(cur, ["proj", *want], frozenset(want))
         pr = g.apply(cur, ["proj", *want], frozenset(want), g.opts(src_e, True, rng.random() < 0.4, False))
         observed += [plain, pr]
+    if rng.random() < 0.1:
+        # scenario: the fixed relation of a join has a non-common column named like a column the target HID
+        # (a projection downstream of a transfer); back-tracking must not move the join to where the hidden
+        # column would shadow the fixed relation's one - the fixed relation on either side
+        e_up = rng.choice(engines)
+        e_down = rng.choice([e for e in engines if e != e_up])
+        extra = rng.choice([[], ["d"]])
+        t0 = g.leaf(e_up, cols=sorted(["a", "c"] + extra), nrows=rng.choice([2, 3, 4]))
+        fixed = g.leaf(e_up, cols=["a", "c"], nrows=rng.choice([2, 3, 4]))
+        cur = g.transfer(t0, e_down)
+        keep = sorted(["a"] + extra)
+        cur = g.apply(cur, ["proj", *keep], frozenset(keep))
+        if rng.random() < 0.3:
+            cur = g.apply(cur, ["dedup"], g.cols[cur])
+        observed.append(g.joinp(cur, fixed, None, g.opts(rng.choice(["-", e_up]), True, rng.random() < 0.6, False),
+                                fixed_lhs=rng.random() < 0.6))
     for _ in range(n_ops):
         k = rng.random()
         t = g.pick()
@@ -976,6 +1019,21 @@ def prog_multi(seed: int, n_ops: int = 8, *, three: float = 0.3, prefs: float = 
             else:
                 r = g.apply(t, op, nc)
         elif k < 0.68:
+            iters_ = [e for e in engines if g.kind[e] == "iter"]
+            if rng.random() < 0.12:
+                # `Engine.transfer` with an explicit payload: half of the time towards the engine the target already
+                # lives in (directly, or after a there-and-back pair is simplified away) - that must be refused
+                if g.kind[g.eng[t]] == "iter" and rng.random() < 0.5:
+                    dest = g.eng[t]
+                    if rng.random() < 0.5:
+                        t = g.transfer(t, rng.choice([e for e in engines if e != dest]))
+                else:
+                    dest = rng.choice(iters_)
+                r = g.transferp(t, dest)
+                # the call may be refused: later commands must not depend on it (the returned tree itself is compared
+                # and walked)
+                del g.cols[r]
+                continue
             r = g.transfer(t, rng.choice(engines))
         elif k < 0.78:
             r = g.mat(t)
@@ -1000,7 +1058,7 @@ def prog_multi(seed: int, n_ops: int = 8, *, three: float = 0.3, prefs: float = 
                                                       rng.random() < 0.6, False))
             elif rng.random() < 0.3:
                 r = g.joinp(t, u, pred, g.opts(rng.choice(["-"] + engines), rng.random() < 0.7, rng.random() < 0.6,
-                                               rng.random() < 0.2))
+                                               rng.random() < 0.2), fixed_lhs=rng.random() < 0.4)
             else:
                 r = g.join(t, u, pred, bt=rng.random() < 0.7, tr=rng.random() < 0.6)
         observed.append(r)
